@@ -263,7 +263,7 @@ func readerTable(w *core.World) (map[string]*readerCase, *core.FuncInfo) {
 }
 
 func checkC08(r *core.Run) {
-	r.Explain = "Decided statically by table extraction and constant evaluation: (C08.codes) every JDBC code the image builder can emit (MySQLStrToJavaType ∘ MySQLCodeToJava over its type strings, minus JDBCTypeOther) has a case in ColumnImage.UnmarshalJSON; (C08.kinds) per type string the Go kind produced by the row scanner, the JSON shape encoding/json gives it (time.Time special-cased by MarshalJSON) and what the reader's case asserts and undoes agree: no assertion on a dynamic type encoding/json never produces, no reader transform without its inverse on the writer side or vice versa, no 64-bit integer decoded through float64; (C08.pair) Compress is reached from the flush path iff Decompress is reached from the undo path, under the same context key constant; the serializer name is written and read under one key; every UndoLogParser.Decode restores kinds by type code; (C08.registry) each compressor's GetCompressorType equals the case label returning it, unknown spellings map to the identity compressor; (C08.nopanic) the parser used on the decode path is assigned on every path before its Decode is called. (C08.stream) in every Compressor implementation a stream writer wrapped around the output buffer is closed (not merely deferred) before the buffer's bytes are taken, and Compress returns its input unchanged on some path only if Decompress returns its input unchanged on every path. NOT decided: the actual value round trip, the compression libraries, thresholds."
+	r.Explain = "Decided statically by table extraction and constant evaluation: (C08.codes) every JDBC code the image builder can emit (MySQLStrToJavaType ∘ MySQLCodeToJava over its type strings, minus JDBCTypeOther) has a case in ColumnImage.UnmarshalJSON; (C08.kinds) per type string the Go kind produced by the row scanner, the JSON shape encoding/json gives it (time.Time special-cased by MarshalJSON) and what the reader's case asserts and undoes agree: no assertion on a dynamic type encoding/json never produces, no reader transform without its inverse on the writer side or vice versa, no 64-bit integer decoded through float64; (C08.pair) Compress is reached from the flush path iff Decompress is reached from the undo path, under the same context key constant; the serializer name is written and read under one key; every UndoLogParser.Decode restores kinds by type code; (C08.registry) each compressor's GetCompressorType equals the case label returning it, unknown spellings map to the identity compressor; (C08.nopanic) the parser used on the decode path is assigned on every path before its Decode is called. (C08.pure) compressors, serializers and the column (un)marshalling consult no package-level state that request paths mutate — an output buffer taken from a pool and put back while its bytes are still referenced belongs here; (C08.stream) in every Compressor implementation a stream writer wrapped around the output buffer is closed (not merely deferred) before the buffer's bytes are taken, and Compress returns its input unchanged on some path only if Decompress returns its input unchanged on every path. NOT decided: the actual value round trip, the compression libraries, thresholds."
 	r.Trusted = []string{"go/types", "encoding/json's mapping of Go kinds to JSON and back into interface{} (bool, float64, string, []interface{}, map[string]interface{})", "compression libraries"}
 	w := r.W
 	jd, ok := jdbcOf(w)
@@ -383,6 +383,28 @@ func checkC08(r *core.Run) {
 	c08Pair(r)
 	c08Registry(r)
 	c08Stream(r)
+	{
+		var fs []*core.FuncInfo
+		if ci := r.W.Interface("pkg/compressor", "Compressor"); ci != nil {
+			for _, n := range r.W.Implementers(ci) {
+				fs = append(fs, methodInfo(r.W, n, "Compress"), methodInfo(r.W, n, "Decompress"))
+			}
+		}
+		if pi := r.W.Interface("pkg/datasource/sql/undo/parser", "UndoLogParser"); pi != nil {
+			for _, n := range r.W.Implementers(pi) {
+				fs = append(fs, methodInfo(r.W, n, "Encode"), methodInfo(r.W, n, "Decode"))
+			}
+		}
+		fs = append(fs, rfn, methodInfo(r.W, r.W.NamedType("pkg/datasource/sql/types", "ColumnImage"), "MarshalJSON"))
+		var keep []*core.FuncInfo
+		for _, f := range fs {
+			if f != nil && !r.W.IsTestFile(f.Decl.Pos()) && !strings.Contains(f.Pkg.PkgPath, "/mock") {
+				keep = append(keep, f)
+			}
+		}
+		pureOfRuntimeState(r, "C08.pure", "the encoding", append(keep, reachFrom(r.W, keep, core.Module+"/pkg/compressor", core.Module+"/pkg/datasource/sql/undo/parser", core.Module+"/pkg/datasource/sql/types")...), nil)
+		r.Floor("C08.pure", 15)
+	}
 	r.Floor("C08.codes", 28)
 	r.Floor("C08.kinds", 40)
 	r.Floor("C08.pair", 5)
